@@ -9,6 +9,7 @@ structure definition (it never looks at the stream).
 from __future__ import annotations
 
 import datetime
+import random as _real_random
 import json as _json
 import string
 import sys
@@ -111,14 +112,70 @@ class FakeFab:
         return self._st.next("text")[2]
 
 
+class RecRandom:
+    """'real' mode: the REAL random module answers (seeded); every answer is recorded as the draw that makes
+    the model answer the same (random() = k/2**53 exactly; randrange(a,b) = a + n; sample = index)."""
+
+    def __init__(self, st: Stream):
+        self._st = st
+
+    def random(self):
+        r = _real_random.random()
+        self._st.draws.append((int(r * 2 ** 53), 2 ** 53, ""))
+        self._st.next("random")
+        return r
+
+    def randrange(self, start, stop=None):
+        v = _real_random.randrange(start, stop) if stop is not None else _real_random.randrange(start)
+        self._st.draws.append((v - (start if stop is not None else 0), 1, ""))
+        self._st.next("randrange")
+        return v
+
+    def sample(self, population, k, *, counts=None):
+        if k != 1:
+            raise ValueError("harness: only k=1 is modelled")
+        picked = _real_random.sample(range(len(population)), 1, counts=counts)[0]    # the real sampler, on positions
+        cnts = list(counts) if counts is not None else [1] * len(population)
+        self._st.draws.append((sum(cnts[:picked]), 1, ""))
+        self._st.next("sample")
+        return [population[picked]]
+
+
+class RecFab:
+    def __init__(self, st: Stream, real):
+        self._st = st
+        self._real = real
+
+    def __bool__(self):
+        return True
+
+    def get_quote(self, template):
+        t = self._real.get_quote(template)
+        self._st.draws.append((0, 1, t))
+        self._st.next("text")
+        return t
+
+    def get_lorem_paragraph(self, **kw):
+        t = self._real.get_lorem_paragraph(**kw)
+        self._st.draws.append((0, 1, t))
+        self._st.next("text")
+        return t
+
+
 class patched:
-    def __init__(self, st):
+    def __init__(self, st, real_seed=None):
         self.st = st
+        self.real_seed = real_seed
 
     def __enter__(self):
         self.saved = (TG.random, TG.fab)
-        TG.random = FakeRandom(self.st)
-        TG.fab = FakeFab(self.st)
+        if self.real_seed is not None:
+            _real_random.seed(self.real_seed)
+            TG.random = RecRandom(self.st)
+            TG.fab = RecFab(self.st, self.saved[1])
+        else:
+            TG.random = FakeRandom(self.st)
+            TG.fab = FakeFab(self.st)
 
     def __exit__(self, *a):
         TG.random, TG.fab = self.saved
@@ -612,10 +669,13 @@ class Prop:
     rule = ("generated structure definitions (acyclic relation graphs over 1-4 node types + __root__, 1-2 child relations per type, "
             "'*'/per-type defaults overlapping the relation specs, :count fixed 0..3 / RangeRandomizer / SampleRandomizer / "
             "ValueRandomizer / SparseBoolRandomizer / inherited from the type defaults, attributes with every randomizer class, "
-            "probabilities 0, 1/4, 1/2, 3/4, 1, none_value None/int/str template, templates with {idx}/{hier_idx}/escaped braces) "
-            "x generated draw streams (possibly shorter than needed) x Tree and TypedTree; random/fabulist replaced harness-side by "
-            "readers of the stream.  A case is one build; distinct = distinct (definition, stream, class); non-trivial = >= 2 nodes "
-            "and >= 1 draw consumed")
+            "probabilities 0, 1/4, 1/2, 5/8, 3/4, 1, none_value None/int/str template, templates with {idx}/{hier_idx}/escaped braces, "
+            ":factory DictWrapper or a harness class and :callback (set key / delete key) at all three merge levels) "
+            "x generated draw streams (possibly shorter than needed) x Tree and TypedTree, random/fabulist replaced harness-side by "
+            "readers of the stream; plus builds driven by the REAL seeded random module and the real fabulist with every answer "
+            "recorded as the draw the model then reads; plus Randomizer constructor calls with well- and ill-formed arguments; plus "
+            "definitions without __root__ (refused).  A case is one build; distinct = distinct (definition, stream, class); "
+            "non-trivial = >= 2 nodes and >= 1 draw consumed")
     assumptions = [
         "the `random` module and fabulist are replaced by stream readers (harness-side monkeypatch of the names in nutree.tree_generator); "
         "randrange(a,b)=a+n mod (b-a), random()=(n mod d)/d, uniform(a,b)=a+(b-a)*random(), sample = index n mod total into the expanded population",
@@ -644,6 +704,11 @@ class Prop:
         yield from CORPUS
         for _ in range(60 if tier == "quick" else 400):
             yield dict(ctor=gen_ctor(rng))
+        for _ in range(40 if tier == "quick" else 300):
+            d = gen_def(rng)
+            if '"RangeF"' in _json.dumps(d) or fab_missing():
+                continue
+            yield dict(d, typed=rng.random() < 0.5, stream=[], real_seed=rng.randint(0, 10 ** 6))
         for _ in range(5 if tier == "quick" else 30):
             d = gen_def(rng)
             d["relations"] = [r for r in d["relations"] if r[0] != "__root__"]
@@ -709,7 +774,8 @@ class Prop:
             return self.run_cyclic(desc, cls, st)
         err = None
         tree = None
-        with patched(st):
+        real = desc.get("real_seed")       # the real random module + the real fabulist answer; the draws are recorded
+        with patched(st, real):
             try:
                 sd = py_def(desc)
                 tree = cls.build_random_tree(sd)
@@ -719,7 +785,7 @@ class Prop:
         coq_rk = H.coq_list(f"({H.coq_text(t)}, {n})" for t, n in (rk or {}).items())
         # the model gets the draws the implementation consumed plus a margin (enough to notice a model that
         # consumes more); the full stream stays in the desc
-        coq_in = f"(CBuild {H.coq_bool(desc['typed'])} {coq_def(desc)} {fuel} {coq_rk} {coq_stream(desc['stream'][:st.pos + 6])})"
+        coq_in = f"(CBuild {H.coq_bool(desc['typed'])} {coq_def(desc)} {fuel} {coq_rk} {coq_stream((st.draws if real is not None else desc['stream'])[:st.pos + 6])})"
         no_root = not any(p == "__root__" for p, _ in desc["relations"])
         if err is not None:
             refused = no_root and isinstance(err, AssertionError)      # assert "__root__" in relations
@@ -739,7 +805,7 @@ class Prop:
         return Case(desc=desc, coq_input=coq_in, impl_obs=obs, oracle_fail=fail,
                     nontrivial=n >= 2 and st.pos >= 1, key=H.digest(desc),
                     stats=dict(nodes=min(n, 60) // 5 * 5, depth=depth, draws=min(st.pos, 100) // 10 * 10,
-                               stream_exhausted=st.pos > len(st.draws), calls="+".join(kinds), typed=desc["typed"],
+                               stream_exhausted=st.pos > len(st.draws), calls="+".join(kinds), typed=desc["typed"], real_random=real is not None,
                                in_theorem_domain=rk is not None, uses_callback='":callback"' in _json.dumps(desc),
                                uses_obj_factory='"Obj"' in _json.dumps(desc)))
 
@@ -819,6 +885,10 @@ def gen_rnd(rng):
     if k == "Text":
         return {"R": k, "tmpl": "$(Noun) {idx}", "p": p}
     return {"R": k, "p": p}
+
+
+def fab_missing():
+    return TG.fab is None
 
 
 def gen_ctor(rng):
